@@ -117,8 +117,12 @@ def batchDefect (vk : VK F) (cs zs vs : List F) (πs : List (Proof F)) (rs : Lis
   let (tc, tw, gm, ggm) := batchAcc cs zs vs πs rs 1
   (-tw) * vk.betaH + (tc - gm * vk.g - ggm * vk.gammaG) * vk.h
 
-def batchCheck (vk : VK F) (cs zs vs : List F) (πs : List (Proof F)) (rs : List F) : Bool :=
-  decide (batchDefect vk cs zs vs πs rs = 0)
+/-- `KZG10::batch_check`: refuses slices of different lengths, otherwise the randomized test. -/
+def batchCheck (vk : VK F) (cs zs vs : List F) (πs : List (Proof F)) (rs : List F) :
+    Except Err Bool :=
+  if cs.length ≠ zs.length ∨ cs.length ≠ vs.length ∨ cs.length ≠ πs.length then
+    .error .incorrectInputLength
+  else .ok (decide (batchDefect vk cs zs vs πs rs = 0))
 
 end KZG
 end PCV
